@@ -306,33 +306,25 @@ Theorem C01_history_judgement_sound :
 Proof. exact hist_judgement_sound. Qed.
 Print Assumptions C01_history_judgement_sound.
 
-(* Run level (the returned result, not only the calls).  FULL statement: an exposure with debug capture
-   on completes for every pipeline and makes the calls of the run without debug.  The faithful model
-   of the code refutes it: when no model at all executes (no group, or everything disabled) the
-   result assembly reads detector.intermediate, which was never created -> RuntimeError.
-   Known finding C01-debug-empty-run; the witness is replayed on the implementation by the check. *)
-Definition C01_debug_runs_full : Prop :=
-  forall p n, exists r, exposure_result true physical p n = Ok r /\ fst r = trace false p n.
+(* Run level (the returned result, not only the calls): an exposure completes for EVERY pipeline with
+   debug capture on or off, makes the calls of the run without debug, and with debug on captures each
+   of them — none when no model at all executes (no group, or everything disabled; the defect
+   C01-debug-empty-run, repaired: the result assembly used to read a tree that did not exist). *)
+Theorem C01_debug_runs :
+  forall p n debug,
+    exposure_result debug physical p n =
+    Ok (trace false p n, if debug then captures_of (trace false p n) else []).
+Proof. intros. apply exposure_runs. Qed.
+Print Assumptions C01_debug_runs.
 
-Theorem C01_debug_runs_refuted : ~ C01_debug_runs_full.
-Proof.
-  intro H. destruct (H (mk_pipeline (fun _ => None)) 1) as (r & E & _). vm_compute in E. discriminate E.
-Qed.
-Print Assumptions C01_debug_runs_refuted.
-
-(* strongest true restriction: as soon as one model executes, the debug run completes, makes exactly
-   the calls of the run without debug and captures each of them; without debug every run completes *)
-Theorem C01_debug_runs_partial :
-  (forall p n, trace false p n <> [] ->
-     exists r, exposure_result true physical p n = Ok r /\
-               fst r = trace false p n /\ snd r = captures_of (trace false p n)) /\
-  (forall p n, exposure_result false physical p n = Ok (run_readouts false physical p n)) /\
-  (forall p n, trace false p n = [] -> exposure_result true physical p n = Raise "RuntimeError").
-Proof.
-  split; [exact (exposure_debug_partial physical)|].
-  split; [exact (exposure_off_runs physical)|exact (exposure_debug_empty physical)].
-Qed.
-Print Assumptions C01_debug_runs_partial.
+(* the source side of the two repaired defects: every read of `detector.intermediate` in
+   exposure.run_pipeline is guarded by a test of `_intermediate`, and ModelGroup.__setstate__ restores
+   every attribute that __init__ sets (a pipeline that went through pickle can run: C01-pickled-group-run) *)
+Theorem C01_src_repairs :
+  forallb (String.eqb "guarded") src_intermediate_reads = true /\
+  forallb (fun a => existsb (String.eqb a) src_group_setstate_attrs) src_group_init_attrs = true.
+Proof. split; reflexivity. Qed.
+Print Assumptions C01_src_repairs.
 
 (* ---------- non-vacuity: concrete instances of the hypotheses and of the model ---------- *)
 
@@ -372,8 +364,13 @@ Proof.
   simpl. repeat constructor; simpl; intuition discriminate.
 Qed.
 
-Example ex_debug_partial_hyp : trace false ex_p 2 <> [].
-Proof. vm_compute. discriminate. Qed.
+(* the formerly failing input: no group at all, one readout, debug on *)
+Example ex_debug_empty :
+  exposure_result true physical (mk_pipeline (fun _ => None)) 1 = Ok ([], []) /\
+  exists t, exposure_result true physical ex_p 2 = Ok (t, captures_of t) /\ t <> [].
+Proof.
+  split; [reflexivity|]. exists (trace false ex_p 2). split; [apply C01_debug_runs|vm_compute; discriminate].
+Qed.
 
 Example ex_unknown_key : from_yaml [("photon_generation", None)]%string = Raise "TypeError".
 Proof. reflexivity. Qed.
